@@ -150,11 +150,11 @@ def separator_specs(tier: str):
 
 
 def specs(tier: str):
-    return separator_specs(tier) + families.c01_specs(tier, kmode="all", extra_sigma="\né", max_inputs=45 if tier == "quick" else 160, extra_trivia=("cm_pred", "cm_nonatomic", "both_overlap"), sigma_core="aA")
+    return separator_specs(tier) + families.c01_specs(tier, kmode="all", extra_sigma="\né", max_inputs=45 if tier == "quick" else 160, extra_trivia=("cm_pred", "cm_nonatomic", "both_overlap"), sigma_core="aA", lean=True)
 
 
 def run(tier: str) -> int:
-    b = families.C01_BOUNDS[tier]
+    b = families.c01_bounds(tier, lean=True)
     return gc.run_model_check(
         C13(), specs(tier), tier, "exploration",
         bounds=[{"top": [{"n": n, "modifiers": list(m), "trivia": list(t)} for n, m, t in b["top"]], "contexts": [{"hole_size": h, "trivia": list(t)} for h, t in b["ctx"]],
